@@ -7,6 +7,11 @@ d = os.path.dirname(os.path.dirname(os.path.abspath(__file__)))
 REPO = "/repo"
 tier = "quick"
 args = sys.argv[1:]
+SCRATCH = None
+if args and args[0] == "--scratch":
+    # run against a scratch worktree (ZVBI_REPO) instead of patching /repo itself; used while other work reads /repo
+    args = args[1:]
+    SCRATCH = "/tmp/seeded_wt_%d" % os.getpid()
 if args and args[0] == "--tier":
     tier = args[1]; args = args[2:]
 man = json.load(open(os.path.join(d, "MANIFEST.json")))
@@ -14,9 +19,15 @@ checks = {c["property_id"]: c for c in man["checks"]}
 def sh(cmd, **kw):
     p = subprocess.run(cmd, shell=True, stdout=subprocess.PIPE, stderr=subprocess.STDOUT, **kw)
     return p.returncode, p.stdout.decode("utf-8", "replace")
+if SCRATCH:
+    rc, out = sh("git -C /repo worktree add --detach %s HEAD && cp /repo/config.h %s/ && cp -n /repo/site_def.h %s/ 2>/dev/null; true" % (SCRATCH, SCRATCH, SCRATCH))
+    REPO = SCRATCH
+    os.environ["ZVBI_REPO"] = SCRATCH
+    import atexit
+    atexit.register(lambda: sh("git -C /repo worktree remove --force %s" % SCRATCH))
 rc, out = sh("git -C %s status --porcelain --untracked-files=no" % REPO)
 if out.strip():
-    print("refusing: /repo has local modifications:\n" + out); sys.exit(2)
+    print("refusing: %s has local modifications:\n" % REPO + out); sys.exit(2)
 res = {}
 rp = os.path.join(d, "seeded", "RESULTS.json")
 if os.path.exists(rp):
